@@ -3,7 +3,8 @@ import GuppyVerif.Util.Sexp
 /-! Line-protocol driver for C25.  One S-expression per line:
     `(emit <mod>…)` → emitted ops, same syntax;   mod: `d` | `(p <e>)` | `(c <id> <n>)`
     `(call (<mod>…) ((<name> <copyable 0|1>)…))` → `<args> | <outs>` with slots `c<id>:<n>` / `v<name>`
-      (controls taken from the modifier list via `push_modifier`) -/
+      (controls taken from the modifier list via `push_modifier`)
+    `(unpack (<var>…)…)` → per control (call-output order) `var<-wire` pairs, controls separated by `|` -/
 open GuppyVerif GuppyVerif.Modifier
 
 def mod? : Sexp → Option Mod
@@ -40,6 +41,12 @@ def handle (line : String) : String :=
       " ".intercalate ((callArgs cs vs).map showSlot) ++ " | " ++
         " ".intercalate ((handBack cs vs).map showSlot)
     | _, _ => "bad-op"
+  | some (.list (.atom "unpack" :: cs)) =>
+    match cs.mapM Sexp.natList? with
+    | some cs =>
+      " | ".intercalate ((handBackElems cs).map fun ps =>
+        " ".intercalate (ps.map fun p => s!"{p.1}<-{p.2}"))
+    | none => "bad-op"
   | _ => "bad-op"
 
 def main : IO Unit := do lineLoop (← IO.getStdin) handle
